@@ -160,3 +160,4 @@ func verifCmpU64(a, b uint64) int {
 	return 0
 }
 func verifIfaceEq(a, b interface{}) bool { return verifDeepEq(a, b) }
+func verifStrSame(a, b string) bool { return a == b }
